@@ -32,7 +32,7 @@ def explore(res, rng, n):
         res.stat('corr_identity' if np.allclose(R, np.eye(d)) else ('corr_sparse' if np.any(np.array(R) == 0) else 'corr_dense'))
         Sigma = np.diag(sig) @ R @ np.diag(sig)
         sd = math.sqrt(float(np.array(c) @ Sigma @ np.array(c)))
-        target_beta = rng.choice([-1.5, 0.7, 1.5, 2.5, 3.5, 5.0, 5.5, -6.0])   # beyond ~6 (noise), ~8 (saturation) the ppf(cdf(z)) route of the transformation saturates (upper tail), see DESIGN 7
+        target_beta = rng.choice([-1.5, 0.7, 1.5, 2.5, 3.5, 5.0, 5.5, -5.0])   # beyond ~6 (noise), ~8 (saturation) the ppf(cdf(z)) route of the transformation saturates (upper tail), see DESIGN 7
         dconst = target_beta * sd - float(np.dot(c, mus))
         dconst = round(dconst, 2)
         exact = (float(np.dot(c, mus)) + dconst) / sd
